@@ -62,4 +62,13 @@ static std::string dispatch(const std::string &op, const Args &a)
     exit(2);
 }
 
-int main(int argc, char **argv) { return run_main(argc, argv, dispatch); }
+static std::string codec_probe()
+{
+    static const unsigned char raw[] = { 0, 1, 0x7f, 0x80, 0xff, 'a', 'b', 'c', 0x10, 0x20, 0x30, 0x40, 0x50, 0x60, 0x70, 0x11, 0x22, 0x33, 0x44 };
+    ST::string h = ST::hex_encode(raw, sizeof raw), b = ST::base64_encode(raw, sizeof raw);
+    std::ostringstream o;
+    o << hex(h) << "|" << hex(b) << "|" << hex(ST::hex_decode(h)) << "|" << hex(ST::base64_decode(b)) << "|" << hex(ST::hex_decode(h.to_upper()));
+    return o.str();
+}
+
+int main(int argc, char **argv) { vh::g_probe = codec_probe; return run_main(argc, argv, dispatch); }
